@@ -8,7 +8,10 @@ A case is an operation log
 
 (``"L"``, ``"R"`` instead of ``"n"`` for BipartiteGraph; ``["add_batch", pairs, "list"|"iter"|"tuple"]`` is
 add_edges_from judged without assuming an order of processing, see the batches section; ``["hold", kind, arg, mode]``
-and ``["consult", k]`` keep an object returned by the graph and look at it later, see the held views section).
+and ``["consult", k]`` keep an object returned by the graph and look at it later, see the held views section;
+with ``"foreign": {...}`` instead of ``"n"`` the initial object is the conversion of a networkx graph (or of something
+else) described by its node list and edge list, and ``["reconvert", ...]`` replaces the object by a conversion in the
+middle of the history, see the conversion section).
 run_case replays the log on
 a fresh object and on the model of vlib/graphmodel.py (vertex count + Python set of
 edges) and compares every public view with the model after every step; at the end
@@ -20,7 +23,7 @@ import sys
 
 from hypothesis import strategies as st
 
-from vlib.core import SubCheck, Violation, Outcome
+from vlib.core import SubCheck, Violation, Outcome, derive_seed, exception_in_tree, short_tb
 from vlib import graphmodel as gm
 
 PROPERTY = "C16"
@@ -52,9 +55,25 @@ ASSUMPTIONS = [
     "looked at once, for a vertex that exists when the call is made) are not documented as live: either the state at the "
     "time of the call or the present state is accepted; an iterator over a view that is advanced while the graph "
     "changes is not examined",
-    "from_networkx on foreign networkx graphs: labels are an increasing integer relabelling of 1..n; for bipartite "
-    "graphs the vertices of each side are inserted in increasing order (the class relabels each side by order of "
-    "appearance, Graph/DirectedGraph by sorted label), possibly the whole right side before the left side",
+    "from_networkx / normalize at the end and every 8th step of a history (check_conversions): the networkx graph is "
+    "built from the model with an increasing integer relabelling of 1..n; for bipartite graphs the vertices of each "
+    "side are inserted in increasing order, possibly the whole right side before the left side",
+    "conversion of foreign objects (cases with 'foreign', operation 'reconvert'): which argument classes are taken is "
+    "read off the type tests and error messages of the tree - Graph.* and BipartiteGraph.* take any networkx.Graph "
+    "instance (DiGraph, MultiGraph, MultiDiGraph are subclasses), DirectedGraph.* only DiGraph / MultiDiGraph; "
+    "everything else must be refused, with ValueError (what from_networkx raises) or TypeError (what normalize "
+    "raises), either accepted from either entry point",
+    "numbering of converted vertices: sorted labels -> 1..n for Graph/DirectedGraph ('the order is preserved' in the "
+    "docstring of normalize), labels that are all strings of decimal digits in numeric order (comment in "
+    "normalize_networkx_labels; the labels of a DOT file); gray: labels that cannot be sorted together (int and str, "
+    "...) are numbered in order of insertion by the tree, any bijection is accepted; gray: BipartiteGraph numbers "
+    "each side in order of insertion of the nodes (not by sorted label as the two other classes do; its docstring "
+    "also says 'the order is preserved'), the sorted order of each side is accepted as well",
+    "the node attribute 'bipartite' is accepted as 0/1 (documented), False/True (equal to 0/1) and '0'/'1' (what a "
+    "GML/DOT reader delivers, accepted by the tree); 2, -1, 0.5, 'left', '', '2', None, [0] or no attribute must give "
+    "ValueError (documented); 0.0/1.0 are not generated",
+    "gray: a self-loop in a networkx graph given to DirectedGraph is kept (is_dag() False) or refused with ValueError, "
+    "as for add_edge; a conversion is expected to leave its argument as it was (nodes, attributes, edges)",
 ]
 
 NMAX = 12          # vertex growth is capped so that the cost of a step stays bounded
@@ -77,21 +96,30 @@ def run_case(case):
     clsname = case['cls']
     if clsname not in gm.KINDS:
         raise ValueError("unknown class in case: {}".format(clsname))
-    sizes = [case['L'], case['R']] if clsname == 'BipartiteGraph' else [case['n']]
-    if min(sizes) < 0:
-        try:
-            gm.build(clsname, case)
-        except ValueError:
-            return Outcome(labels=['bad-initial-size'], nontrivial=False, rejected=True)
-        raise Violation("{}({}) with a negative size was not refused with ValueError".format(
-            clsname, ','.join(map(str, sizes))))
-    G, M = gm.build(clsname, case)
-    n0 = M.n
     labels = set([clsname])
+    if 'foreign' in case:
+        # the initial object is obtained by converting a foreign object (see the conversion section)
+        G, M, head = _obtain_foreign(clsname, case['foreign'], labels)
+        if G is None:
+            return Outcome(labels=sorted(labels), nontrivial=False)
+        sizes = [M.L, M.R] if clsname == 'BipartiteGraph' else [M.n]
+        converted_edges = set(M.E)
+    else:
+        sizes = [case['L'], case['R']] if clsname == 'BipartiteGraph' else [case['n']]
+        if min(sizes) < 0:
+            try:
+                gm.build(clsname, case)
+            except ValueError:
+                return Outcome(labels=['bad-initial-size'], nontrivial=False, rejected=True)
+            raise Violation("{}({}) with a negative size was not refused with ValueError".format(
+                clsname, ','.join(map(str, sizes))))
+        G, M = gm.build(clsname, case)
+        head = "{}({})".format(clsname, ','.join(map(str, sizes)))
+        gm.check_views(G, M, head + " freshly created")
+        converted_edges = None
+    n0 = M.n
     if min(sizes) == 0:
         labels.add('initial-size-0')
-    head = "{}({})".format(clsname, ','.join(map(str, sizes)))
-    gm.check_views(G, M, head + " freshly created")
     grown = False
     refused_batch_at = None
     nxp = case.get('nx') or {'mul': 1, 'add': 0, 'rev': False}
@@ -104,6 +132,16 @@ def run_case(case):
             ctx = "{} at step {} {}".format(head, i, _show(op))
             labels |= _hold(G, M, op, held, i, ctx) if op[0] == 'hold' else _consult(G, M, op, held, i, ctx)
             looked_last = True
+            continue
+        if op[0] == 'reconvert':
+            # the history goes on on the object obtained by converting a networkx graph built from the model
+            ctx = "{} after step {} {}".format(head, i, _show(op))
+            G = _reconvert(G, M, op, ctx)
+            del held[:]                      # the objects held so far belong to the former object
+            labels.update(('reconverted', 'reconverted-' + op[1]))
+            converted_edges = set(M.E)
+            gm.check_views(G, M, ctx)
+            looked_last = False
             continue
         if not hasattr(G, 'add_edges_from' if op[0] == 'add_batch' else op[0]):
             labels.add('operation-not-offered')
@@ -128,6 +166,14 @@ def run_case(case):
             labels.add('edge-on-new-vertex')
         if 'refused' in got and len(M.E) == before:
             labels.add('refused-nothing-changed')
+        if converted_edges is not None:
+            for ev in ('inserted', 'duplicate', 'refused', 'removal', 'growth'):
+                if ev in got:
+                    labels.add('converted-then-' + ev)
+            if 'duplicate' in got and op[0] == 'add_edge' and M.norm(op[1], op[2]) in converted_edges:
+                labels.add('converted-then-duplicate-of-a-converted-edge')
+            if 'removal' in got and M.norm(op[1], op[2]) in converted_edges:
+                labels.add('converted-then-removal-of-a-converted-edge')
         gm.check_views(G, M, ctx)
         for h in held:
             h['events'] |= got & _HELD_EVENTS
@@ -163,6 +209,10 @@ def _show(op):
         return "hold {}{} ({})".format(op[1], '({})'.format(op[2]) if op[1] in _HOLD_WITH_ARG else '()', op[3])
     if op[0] == 'consult':
         return "consult held object {}".format(op[1])
+    if op[0] == 'reconvert':
+        return "G = {}(a networkx {} built from the model, labels {}*i{:+d}{})".format(
+            op[1], 'multigraph with every edge twice' if op[5] else 'graph', op[2], op[3],
+            ', inserted in reverse' if op[4] else '')
     return "{}({})".format(op[0], ','.join(map(str, op[1:])))
 
 
@@ -353,14 +403,372 @@ def _check_held(G, M, h, step, ctx, full):
 
 
 # ---------------------------------------------------------------------------
+# conversion from foreign objects: another way to obtain the graph object of a history
+#
+#   "foreign": {"nx": "Graph"|"DiGraph"|"MultiGraph"|"MultiDiGraph",   the networkx class of the object given
+#               "via": "from_networkx"|"normalize",                    the class method it is given to
+#               "nodes": [{"l": label, "b": colour}, ...],             in order of insertion ("b": the node attribute
+#                                                                      'bipartite'; no "b" = no attribute)
+#               "edges": [[i, j], ...]}                                positions in "nodes", in order of insertion,
+#                                                                      repeated pairs and i == j allowed
+#   or         {"other": kind, "via": ...}                             an object that is not a networkx graph
+#
+# (labels and colours are JSON values; a list stands for a tuple in a label).  What the conversion has to do is
+# worked out here from the node list and the edge list alone (_foreign_expect); the tree is not consulted:
+#   * class of the argument: Graph.* and BipartiteGraph.* take the four networkx classes (the three others are
+#     subclasses of networkx.Graph), DirectedGraph.* takes DiGraph and MultiDiGraph; anything else - an undirected
+#     graph given to DirectedGraph, an object of another cnfgen class, None, a list of edges, a dict, ... - is refused
+#     with ValueError (from_networkx in the tree) or TypeError (normalize in the tree); either is accepted from either;
+#   * vertices: k nodes give the vertices 1..k; Graph/DirectedGraph number the labels in sorted order, labels that are
+#     all strings of decimal digits in numeric order ('2' before '10'), labels that cannot be sorted together in order
+#     of insertion (gray: any bijection is accepted); BipartiteGraph numbers each side 1..L / 1..R (gray: in order of
+#     insertion of the nodes, what the tree does, or in sorted order of the labels of the side);
+#   * the attribute 'bipartite' must be 0/1, False/True or '0'/'1' on every node, otherwise ValueError;
+#   * edges: parallel and antiparallel pairs are merged exactly as duplicate insertions are (a DiGraph (a,b)+(b,a)
+#     gives one edge of a Graph and two edges of a DirectedGraph); bipartite edges may be given (left,right) or
+#     (right,left); an edge inside one side and a self-loop (Graph, BipartiteGraph) must be refused with ValueError,
+#     a self-loop given to DirectedGraph is gray as in add_edge (kept, then is_dag() is False, or ValueError);
+#   * a refusal returns nothing, and nobody's argument is modified; the history then goes on from the repaired
+#     argument (class changed to a directed one / bad colours replaced / offending edges dropped), which must convert.
+# The object that comes back is compared with the model in every view (gm.check_views) and the operations of the
+# case follow on it.  The operation ["reconvert", via, mul, add, rev, multi] replaces the object, in the middle of
+# a history, by the conversion of a networkx graph built by the harness from the model (gm.foreign_networkx;
+# multi: a MultiGraph/MultiDiGraph with every edge twice); objects held so far are dropped.
+
+NX_CLASSES = ('Graph', 'DiGraph', 'MultiGraph', 'MultiDiGraph')
+NX_ACCEPTED = {'Graph': NX_CLASSES, 'DirectedGraph': ('DiGraph', 'MultiDiGraph'), 'BipartiteGraph': NX_CLASSES}
+VIAS = ('from_networkx', 'normalize')
+OTHER_KINDS = ('none', 'edge-list', 'adjacency-dict', 'string', 'integer', 'networkx-class-itself',
+               'cnfgen-other-class-a', 'cnfgen-other-class-b')
+
+
+def _label(x):
+    return tuple(_label(y) for y in x) if isinstance(x, list) else x
+
+
+def _side(node):
+    """0 / 1 for a node with a usable 'bipartite' attribute, else None"""
+    c = node.get('b', None)
+    if isinstance(c, bool):
+        return int(c)
+    if isinstance(c, int) and c in (0, 1):
+        return c
+    if isinstance(c, str) and c in ('0', '1'):
+        return int(c)
+    return None
+
+
+def _order(labels):
+    """The positions of the labels in the order in which they get the numbers 1..k, and the name of the rule."""
+    k = len(labels)
+    if k and all(isinstance(x, str) and x.isdecimal() for x in labels):
+        return sorted(range(k), key=lambda i: int(labels[i])), 'digit-strings'
+    try:
+        return sorted(range(k), key=lambda i: labels[i]), 'sorted'
+    except TypeError:
+        return list(range(k)), 'unsortable'
+
+
+def _foreign_expect(clsname, F):
+    """-> (refusal, why, models).  refusal: None, 'class', 'content' or 'gray'; why: labels naming the reasons;
+    models: function giving the (rule, Model) candidates in order of preference, None when nothing may come back."""
+    if 'other' in F:
+        return 'class', set(['foreign-not-a-networkx-graph-refused']), None
+    if F['nx'] not in NX_ACCEPTED[clsname]:
+        return 'class', set(['foreign-class-refused']), None
+    labels = [_label(nd['l']) for nd in F['nodes']]
+    k = len(labels)
+    edges = [(e[0], e[1]) for e in F['edges']]
+    why = set()
+
+    def model(num, sides=None):
+        if sides is None:
+            M = gm.Model(clsname, n=k)
+            M.E = set(M.norm(num[i], num[j]) for (i, j) in edges)
+        else:
+            M = gm.Model(clsname, L=sides.count(0), R=sides.count(1))
+            M.E = set((num[i], num[j]) if sides[i] == 0 else (num[j], num[i]) for (i, j) in edges)
+        M.inserted_total = len(M.E)
+        return M
+
+    if clsname == 'BipartiteGraph':
+        sides = [_side(nd) for nd in F['nodes']]
+        for nd, s in zip(F['nodes'], sides):
+            if s is None:
+                why.add('foreign-bad-colour-refused' if 'b' in nd else 'foreign-missing-colour-refused')
+        for (i, j) in edges:
+            if sides[i] is not None and sides[i] == sides[j]:
+                why.add('foreign-selfloop-refused' if i == j else 'foreign-edge-inside-a-side-refused')
+        if why:
+            return 'content', why, None
+
+        def models():
+            nums = []
+            for rule in ('insertion-order', 'sorted'):
+                num = {}
+                for s in (0, 1):
+                    members = [i for i in range(k) if sides[i] == s]
+                    if rule == 'sorted':
+                        members = [members[p] for p in _order([labels[i] for i in members])[0]]
+                    for pos, i in enumerate(members, start=1):
+                        num[i] = pos
+                if num not in nums:
+                    nums.append(num)
+                    yield 'side-by-' + rule, model(num, sides)
+        return None, why, models
+
+    order, rule = _order(labels)
+
+    def models():
+        yield rule, model(dict((i, p) for p, i in enumerate(order, start=1)))
+        if rule == 'unsortable' and k <= 6:
+            for perm in itertools.permutations(range(k)):
+                yield 'unsortable-some-bijection', model(dict((i, p + 1) for i, p in enumerate(perm)))
+    if any(i == j for (i, j) in edges):
+        if clsname == 'Graph':
+            return 'content', set(['foreign-selfloop-refused']), None
+        return 'gray', set(['foreign-loop-refused']), models
+    return None, why, models
+
+
+def _foreign_repair(clsname, F, refusal):
+    """The argument after the user mended what was refused; None when there is nothing to mend."""
+    if 'other' in F:
+        return None
+    F2 = dict(F)
+    if refusal == 'class':
+        F2['nx'] = 'MultiDiGraph' if F['nx'].startswith('Multi') else 'DiGraph'
+    elif clsname == 'BipartiteGraph':
+        mend = (0, '1', False, 1, '0', True)
+        F2['nodes'] = [nd if _side(nd) is not None else dict(nd, b=mend[p % 6]) for p, nd in enumerate(F['nodes'])]
+        sides = [_side(nd) for nd in F2['nodes']]
+        F2['edges'] = [e for e in F['edges'] if sides[e[0]] != sides[e[1]]]
+    else:
+        F2['edges'] = [e for e in F['edges'] if e[0] != e[1]]
+    return F2
+
+
+def _foreign_final(clsname, F):
+    """The model a history on this foreign object starts from (first candidate, after the repairs); used to aim
+    the operations of a case, None when nothing is ever converted."""
+    for _ in range(4):
+        refusal, _why, models = _foreign_expect(clsname, F)
+        if refusal in (None, 'gray'):
+            return next(iter(models()))[1]
+        F = _foreign_repair(clsname, F, refusal)
+        if F is None:
+            return None
+    raise RuntimeError("repairs do not end: {}".format(F))
+
+
+def _foreign_object(clsname, F):
+    import networkx
+    if 'other' in F:
+        kind = F['other']
+        if kind.startswith('cnfgen-other-class'):
+            others = [c for c in ('Graph', 'DirectedGraph', 'BipartiteGraph') if c != clsname]
+            other = others[0 if kind.endswith('a') else 1]
+            X = gm.graph_class(other)(2, 2) if other == 'BipartiteGraph' else gm.graph_class(other)(3)
+            X.add_edge(1, 2)
+            return X
+        return {'none': None, 'edge-list': [(1, 2), (2, 3)], 'adjacency-dict': {1: [2], 2: [1]}, 'string': 'K3',
+                'integer': 3, 'networkx-class-itself': networkx.Graph}[kind]
+    X = getattr(networkx, F['nx'])()
+    labels = [_label(nd['l']) for nd in F['nodes']]
+    if len(set(labels)) != len(labels):
+        raise RuntimeError("case with equal labels: {}".format(labels))
+    for nd, lab in zip(F['nodes'], labels):
+        if 'b' in nd:
+            X.add_node(lab, bipartite=nd['b'])
+        else:
+            X.add_node(lab)
+    for e in F['edges']:
+        X.add_edge(labels[e[0]], labels[e[1]])
+    return X
+
+
+def _snapshot(X):
+    import networkx
+    if isinstance(X, networkx.Graph):
+        return (type(X).__name__, [(v, dict(d)) for v, d in X.nodes(data=True)],
+                list(X.edges(keys=True)) if X.is_multigraph() else list(X.edges()))
+    if isinstance(X, (list, dict)):
+        return repr(X)
+    if hasattr(X, 'number_of_edges') and hasattr(X, 'number_of_vertices'):
+        return (X.number_of_vertices(), X.number_of_edges(), [tuple(e) for e in X.edges()])
+    return None
+
+
+def _convert(ctx, f, X):
+    """(object, None), or (None, exception) when the tree refuses with ValueError or TypeError."""
+    try:
+        return f(X), None
+    except (ValueError, TypeError) as e:
+        if exception_in_tree(e):
+            return None, e
+        raise
+    except Violation:
+        raise
+    except Exception as e:   # noqa
+        if exception_in_tree(e):
+            raise Violation("{}: unexpected {} from the code under test: {} [{}]".format(
+                ctx, type(e).__name__, e, short_tb(e))) from e
+        raise
+
+
+def _foreign_head(clsname, F):
+    if 'other' in F:
+        return "{}.{}({})".format(clsname, F['via'], F['other'])
+    nodes = ', '.join(repr(_label(nd['l'])) + (' bipartite={!r}'.format(nd['b']) if 'b' in nd else '') for nd in F['nodes'])
+    labels = [_label(nd['l']) for nd in F['nodes']]
+    return "{}.{}(networkx.{} with the nodes [{}] and the edges {})".format(
+        clsname, F['via'], F['nx'], nodes, [(labels[e[0]], labels[e[1]]) for e in F['edges']])
+
+
+def _foreign_labels(clsname, F, M):
+    """What kind of argument was converted (M: the model adopted for the result)."""
+    out = set(['converted'])
+    labels = [_label(nd['l']) for nd in F['nodes']]
+    k = len(labels)
+    edges = [(e[0], e[1]) for e in F['edges']]
+    if k <= 1:
+        out.add('converted-null-graph' if k == 0 else 'converted-single-vertex')
+    types = set(type(x).__name__ for x in labels)
+    if k and types == set(['int']):
+        out.add('labels:int')
+        if min(labels) <= 0:
+            out.add('labels:int<=0')
+        if max(labels) > k:
+            out.add('labels:int-with-gaps')
+    elif k and types == set(['str']):
+        out.add('labels:digit-strings' if all(x.isdecimal() for x in labels) else 'labels:strings')
+    elif k and len(types) == 1:
+        out.add('labels:' + types.pop())
+    elif k:
+        out.add('labels:mixed-types')
+    order = _order(labels)
+    if order[1] != 'unsortable' and order[0] != list(range(k)):
+        out.add('labels-not-inserted-in-their-order')
+    if len(set(edges)) < len(edges):
+        out.add('converted-parallel-edges')
+    if any((j, i) in edges for (i, j) in edges if i != j):
+        out.add('converted-antiparallel-edges')
+    if any(i == j for (i, j) in edges):
+        out.add('converted-loop')
+    touched = set(x for e in M.E for x in e) if M.kind != 'bipartite' else None
+    if M.kind == 'bipartite':
+        lt, rt = set(e[0] for e in M.E), set(e[1] for e in M.E)
+        if len(lt) < M.L or len(rt) < M.R:
+            out.add('converted-isolated-vertex')
+        if (M.L and M.L not in lt) or (M.R and M.R not in rt):
+            out.add('converted-last-vertex-isolated')
+        sides = [_side(nd) for nd in F['nodes']]
+        if any(sides[i] == 1 for (i, j) in edges):
+            out.add('converted-edge-given-right-left')
+        for nd in F['nodes']:
+            out.add('colours:' + type(nd['b']).__name__)
+        if (M.L == 0) != (M.R == 0):
+            out.add('converted-one-empty-side')
+    else:
+        if len(touched) < M.n:
+            out.add('converted-isolated-vertex')
+        if M.n and M.n not in touched:
+            out.add('converted-last-vertex-isolated')
+        if M.E:
+            out.add('converted-with-edges')
+    return out
+
+
+def _obtain_foreign(clsname, F, labels):
+    """Convert the foreign object of the case; -> (object, model, description) or (None, None, description) when the
+    argument had to be refused for good.  Raises Violation."""
+    cls = gm.graph_class(clsname)
+    refusals = 0
+    for _ in range(4):
+        refusal, why, models = _foreign_expect(clsname, F)
+        head = _foreign_head(clsname, F)
+        X = _foreign_object(clsname, F)
+        before = _snapshot(X)
+        G, exc = _convert(head, getattr(cls, F['via']), X)
+        labels.add('via:' + F['via'])
+        labels.add('nx:' + F.get('nx', 'other'))
+        if _snapshot(X) != before:
+            raise Violation("{}: the call changed its argument from {} to {}".format(head, before, _snapshot(X)))
+        if exc is not None:
+            if refusal is None:
+                raise Violation("{}: an argument that can be converted was refused with {}({})".format(
+                    head, type(exc).__name__, exc))
+            if refusal != 'class' and not isinstance(exc, ValueError):
+                raise Violation("{}: refused with {}({}) instead of ValueError ({})".format(
+                    head, type(exc).__name__, exc, ', '.join(sorted(why))))
+            labels |= why
+            labels.add('conversion-refused-with-' + type(exc).__name__)
+            refusals += 1
+            F = _foreign_repair(clsname, F, refusal)
+            if F is None:
+                return None, None, head
+            continue
+        if refusal in ('class', 'content'):
+            raise Violation("{}: gave back {!r} instead of raising {} ({})".format(
+                head, G, 'ValueError' if refusal == 'content' else 'ValueError or TypeError', ', '.join(sorted(why))))
+        if not isinstance(G, cls):
+            raise Violation("{}: gave back a {}".format(head, type(G).__name__))
+        first = None
+        for rule, M in models():
+            try:
+                gm.check_views(G, M, head)
+                break
+            except Violation as v:
+                first = first or v
+        else:
+            raise first
+        labels.add('numbering:' + rule)
+        labels |= _foreign_labels(clsname, F, M)
+        if refusals:
+            labels.add('converted-after-repair')
+        return G, M, head
+    raise RuntimeError("repairs do not end: {}".format(F))
+
+
+def _reconvert(G, M, op, ctx):
+    import networkx
+    via, mul, add, rev, multi = op[1], op[2], op[3], op[4], op[5]
+    cls = gm.graph_class(M.clsname)
+    X = gm.foreign_networkx(M, mul=mul, add=add, rev=rev)
+    if multi:
+        Y = (networkx.MultiDiGraph if X.is_directed() else networkx.MultiGraph)(X)
+        Y.add_edges_from(list(X.edges()))
+        X = Y
+    before = _snapshot(X)
+    G2, exc = _convert(ctx, getattr(cls, via), X)
+    if _snapshot(X) != before:
+        raise Violation("{}: the call changed its argument from {} to {}".format(ctx, before, _snapshot(X)))
+    if exc is not None:
+        if M.kind == 'directed' and any(u == v for (u, v) in M.E) and isinstance(exc, ValueError):
+            return G            # gray: a loop may be refused; the history goes on on the former object
+        raise Violation("{}: the conversion raised {}({}) | model: {}".format(ctx, type(exc).__name__, exc, M.describe()))
+    if not isinstance(G2, cls):
+        raise Violation("{}: the conversion gave back a {}".format(ctx, type(G2).__name__))
+    return G2
+
+
+# ---------------------------------------------------------------------------
 # generated histories
 
 WEIGHTS = {
     'Graph': ['add_edge'] * 9 + ['remove_edge'] * 4 + ['add_edges_from'] * 3 + ['update_vertex_number'] * 3 +
-             ['hold'] * 2 + ['consult'] * 3 + ['grow-and-join'],
-    'DirectedGraph': ['add_edge'] * 7 + ['add_edges_from'] * 2 + ['hold', 'consult', 'consult'],
-    'BipartiteGraph': ['add_edge'] * 7 + ['add_edges_from'] * 2 + ['hold', 'consult', 'consult'],
+             ['hold'] * 2 + ['consult'] * 3 + ['grow-and-join', 'reconvert'],
+    'DirectedGraph': (['add_edge'] * 7 + ['add_edges_from'] * 2 + ['hold', 'consult', 'consult']) * 2 + ['reconvert'],
+    'BipartiteGraph': (['add_edge'] * 7 + ['add_edges_from'] * 2 + ['hold', 'consult', 'consult']) * 2 + ['reconvert'],
 }
+_B_BIG = st.integers(0, 10 ** 6)           # positions and choices are drawn as a big integer modulo the number of options
+_BOOL = st.booleans()
+_P_MODE = st.sampled_from(['legal', 'legal', 'legal', 'present', 'any', 'any'])
+_W_OP = {c: st.sampled_from(WEIGHTS[c]) for c in WEIGHTS}
+_N_STEPS = {}
+_N_PAIRS = st.integers(0, 5)
+_N_START = st.integers(0, 6)
+_HOW = st.sampled_from(['list', 'iter'])
 _H_KIND = {c: st.sampled_from(HOLD_KINDS[c] + ('edges', 'edges')) for c in HOLD_KINDS}
 _H_ARG = st.integers(0, 23)
 _H_MODE = st.sampled_from(['lazy', 'lazy', 'eager'])
@@ -375,15 +783,16 @@ def _draw_pair(draw, M):
         hu, hv = M.L, M.R
     else:
         hu = hv = M.n
-    mode = draw(st.sampled_from(['legal', 'legal', 'legal', 'present', 'any', 'any']))
+    mode = draw(_P_MODE)
     if mode == 'present' and M.E:
-        u, v = draw(st.sampled_from(sorted(M.E)))
-        if M.kind == 'simple' and draw(st.booleans()):
+        E = sorted(M.E)
+        u, v = E[draw(_B_BIG) % len(E)]
+        if M.kind == 'simple' and draw(_BOOL):
             u, v = v, u
         return u, v
     if mode == 'legal' and hu >= 1 and hv >= 1:
-        return draw(st.integers(1, hu)), draw(st.integers(1, hv))
-    return draw(st.integers(-1, hu + 2)), draw(st.integers(-1, hv + 2))
+        return 1 + draw(_B_BIG) % hu, 1 + draw(_B_BIG) % hv
+    return draw(_B_BIG) % (hu + 4) - 1, draw(_B_BIG) % (hv + 4) - 1
 
 
 def _gen_insert(M, u, v):
@@ -395,18 +804,28 @@ def _gen_insert(M, u, v):
 def _history(draw, clsname, max_steps):
     case = {'cls': clsname}
     if clsname == 'BipartiteGraph':
-        case['L'] = draw(st.integers(0, 5))
-        case['R'] = draw(st.integers(0, 5))
+        case['L'] = draw(_N_PAIRS)
+        case['R'] = draw(_N_PAIRS)
         M = gm.Model(clsname, L=case['L'], R=case['R'])
     else:
-        case['n'] = draw(st.integers(0, 6))
+        case['n'] = draw(_N_START)
         M = gm.Model(clsname, n=case['n'])
     # M is used here only to aim the arguments (existing edges, current size); the
     # oracle rebuilds its own model from the log.
+    case['ops'] = _draw_ops(draw, clsname, M, max_steps)
+    b = draw(_B_BIG)
+    case['nx'] = {'mul': 1 + b % 3, 'add': (b // 3) % 7 - 3, 'rev': bool((b // 21) % 2)}
+    return case
+
+
+def _draw_ops(draw, clsname, M, max_steps):
+    """0..max_steps operations aimed at the graph described by M (M is updated along)."""
     ops = []
-    nsteps = draw(st.integers(0, max_steps))
+    if max_steps not in _N_STEPS:
+        _N_STEPS[max_steps] = st.integers(0, max_steps)
+    nsteps = draw(_N_STEPS[max_steps])
     for _ in range(nsteps):
-        name = draw(st.sampled_from(WEIGHTS[clsname]))
+        name = draw(_W_OP[clsname])
         if name == 'add_edge':
             u, v = _draw_pair(draw, M)
             ops.append(['add_edge', u, v])
@@ -419,6 +838,10 @@ def _history(draw, clsname, max_steps):
             ops.append(['hold', draw(_H_KIND[clsname]), draw(_H_ARG), draw(_H_MODE)])
         elif name == 'consult':
             ops.append(['consult', draw(_H_WHICH)])
+        elif name == 'reconvert':
+            a = draw(_B_BIG)
+            ops.append(['reconvert', VIAS[a % 2], 1 + (a // 2) % 3, (a // 6) % 7 - 3, bool((a // 42) % 2),
+                        bool((a // 84) % 2)])
         elif name == 'grow-and-join':
             # growth by 2 or 3 vertices and an edge between two of the new vertices
             k = draw(_H_GROW)
@@ -428,37 +851,36 @@ def _history(draw, clsname, max_steps):
                 M.n += k
                 _gen_insert(M, ops[-1][1], ops[-1][2])
         elif name == 'update_vertex_number':
-            k = draw(st.integers(-1, min(M.n + 3, NMAX)))
+            k = draw(_B_BIG) % (min(M.n + 3, NMAX) + 2) - 1
             ops.append(['update_vertex_number', k])
             if k > M.n:
                 M.n = k
         else:
-            k = draw(st.integers(0, 5))
+            k = draw(_N_PAIRS)
             pairs = [list(_draw_pair(draw, M)) for _ in range(k)]
-            if draw(st.booleans()):
+            if draw(_BOOL):
                 # a pair that must be refused, in the middle of the list
                 if M.kind == 'bipartite':
-                    badp = draw(st.sampled_from([[0, 1], [M.L + 1, 1], [1, M.R + 1], [1, 0], [-1, -1]]))
+                    bads = [[0, 1], [M.L + 1, 1], [1, M.R + 1], [1, 0], [-1, -1]]
                 elif M.kind == 'simple':
-                    badp = draw(st.sampled_from([[0, 1], [M.n + 1, 1], [1, M.n + 1], [1, 1], [1, 0], [M.n + 2, -1]]))
+                    bads = [[0, 1], [M.n + 1, 1], [1, M.n + 1], [1, 1], [1, 0], [M.n + 2, -1]]
                 else:
-                    badp = draw(st.sampled_from([[0, 1], [M.n + 1, 1], [1, M.n + 1], [1, 0], [M.n + 2, -1]]))
-                pairs.insert(len(pairs) // 2, badp)
-            ops.append(['add_edges_from', pairs, draw(st.sampled_from(['list', 'iter']))])
+                    bads = [[0, 1], [M.n + 1, 1], [1, M.n + 1], [1, 0], [M.n + 2, -1]]
+                pairs.insert(len(pairs) // 2, bads[draw(_B_BIG) % len(bads)])
+            ops.append(['add_edges_from', pairs, draw(_HOW)])
             for (u, v) in pairs:
                 if M.classify(u, v) == 'bad':
                     break
                 _gen_insert(M, u, v)
-    case['ops'] = ops
-    case['nx'] = {'mul': draw(st.integers(1, 3)), 'add': draw(st.integers(-3, 3)), 'rev': draw(st.booleans())}
-    return case
+    return ops
 
 
 def _strategy(clsname):
     def make():
         steps = 50 if _tier() == 'quick' else 200
         # most histories short enough to leave the graph sparse, some long
-        return st.one_of(_history(clsname, 12), _history(clsname, steps), _history(clsname, steps))
+        return st.one_of(_history(clsname, 12), _history(clsname, steps), _history(clsname, steps),
+                         _foreign_history(clsname, steps // 2))
     return make
 
 
@@ -509,6 +931,8 @@ def _enumerate(clsname):
                     c.update(s)
                     yield c
         for c in _view_histories(clsname, tier):
+            yield c
+        for c in _foreign_sweep(clsname, tier):
             yield c
     return gen
 
@@ -587,6 +1011,202 @@ def _view_histories(clsname, tier):
                         yield c
 
 
+# ---------------------------------------------------------------------------
+# foreign objects, enumerated: every small networkx graph, then a short history on the converted object
+
+SWEEP_LABELS = (
+    [5, 3, 9, 7],                           # integers with gaps, not inserted in sorted order
+    [0, -2, 1, -1],                         # starting at 0, negative
+    ['10', '2', '1', '33'],                 # strings of digits: numbered as numbers
+    ['b', 'a', 'c', 'B'],                   # strings
+    [[0, 1], [0, 0], [1, 0], [1, 1]],       # tuples (a grid)
+    [2.5, -1.0, 1000.0, 0.5],               # floats
+    [True, 3, False, 2.5],                  # bool, int, float: sortable together
+    ['a', 1, [0], 2.0],                     # not sortable together
+    [1, 2, 3, 4],                           # already 1..n
+    ['10', 'a', '9', 'b'],                  # strings, only some of digits: plain string order
+    [4, 3, 2, 1],                           # 1..n inserted in decreasing order
+)
+COLOUR_SPELLINGS = ((0, 1), (False, True), ('0', '1'), (0, '1'), (False, 1), ('0', True))
+BAD_COLOURS = (2, -1, 'left', '', None, [0], 'missing', '2', 0.5)
+
+
+def _sweep_case(clsname, k, edges, nxname, via, colouring, c, scripts):
+    fam = SWEEP_LABELS[c % len(SWEEP_LABELS)]
+    nodes = [{'l': fam[i]} for i in range(k)]
+    if colouring is not None:
+        sp = COLOUR_SPELLINGS[(c // 3) % len(COLOUR_SPELLINGS)]
+        for i in range(k):
+            nodes[i]['b'] = sp[(colouring >> i) & 1]
+    edges = [list(e) for e in edges]
+    variant = (c // 5) % 4
+    if variant == 1:
+        edges = edges + edges[::-1]             # every edge twice
+    elif variant == 2 and edges:
+        edges = edges + [edges[0]]              # one edge twice
+    elif variant == 3:
+        edges = edges[::-1]
+    F = {'nx': nxname, 'via': via, 'nodes': nodes, 'edges': edges}
+    return _with_tail(clsname, F, c, scripts)
+
+
+def _with_tail(clsname, F, c, scripts):
+    """The case: the foreign object, then two of the update scripts of the held-view histories (insertions,
+    duplicates, refused calls, batches, removals and growth for simple graphs), a held edge view, and in one case
+    out of four a second conversion in the middle."""
+    M = _foreign_final(clsname, F)
+    ops = []
+    if M is not None:
+        z = {'L': M.L, 'R': M.R} if clsname == 'BipartiteGraph' else {'n': M.n}
+        a, b = c % len(scripts), (c // len(scripts)) % len(scripts)
+        ops.append(['hold', 'edges', 0, 'lazy'])
+        ops += scripts[a](z)
+        if sorted(M.E):
+            u, v = sorted(M.E)[c % len(M.E)]
+            ops.append(['add_edge', v, u] if clsname == 'Graph' else ['add_edge', u, v])    # an edge that came with the conversion, again
+            if clsname == 'Graph' and c % 2:
+                ops.append(['remove_edge', u, v])
+        if c % 4 == 0:
+            ops.append(['reconvert', VIAS[(c // 4) % 2], 1 + c % 3, c % 5 - 2, bool((c // 8) % 2), bool((c // 16) % 2)])
+        ops += scripts[b](z)
+        ops.append(['consult', 0])
+    return {'cls': clsname, 'foreign': F, 'ops': ops,
+            'nx': {'mul': 1 + c % 2, 'add': c % 3 - 1, 'rev': bool(c % 4 >= 2)}}
+
+
+def _foreign_sweep(clsname, tier):
+    """Every networkx graph on k <= 3 inserted labels: every set of ordered pairs (i, j), loops included, as edge
+    list (as it is, reversed, every edge twice, one edge twice, in rotation), thorough: for each of the four
+    networkx classes, both class methods and (bipartite) every colouring; quick: one of these combinations per edge
+    set, chosen by a hash of the running number and VERIF_SEED.  Thorough also k = 4 with one combination each."""
+    seed = int(os.environ.get('VERIF_SEED', '1'))
+    scripts = _view_scripts(clsname)[0]
+    c = 0
+    for k in range(0, 4 if tier == 'quick' else 5):
+        pairs = [(i, j) for i in range(k) for j in range(k)]
+        colourings = list(range(1 << k)) if clsname == 'BipartiteGraph' else [None]
+        combos = [(x, via, col) for col in colourings for x in NX_CLASSES for via in VIAS]
+        everything = tier == 'thorough' and k <= 3
+        for mask in range(1 << len(pairs)):
+            edges = [pairs[b] for b in range(len(pairs)) if (mask >> b) & 1]
+            for (x, via, col) in (combos if everything else [combos[derive_seed(seed, clsname, k, mask) % len(combos)]]):
+                c += 1
+                yield _sweep_case(clsname, k, edges, x, via, col, c, scripts)
+    # objects that are not networkx graphs
+    for kind in OTHER_KINDS:
+        for via in VIAS:
+            yield {'cls': clsname, 'foreign': {'other': kind, 'via': via}, 'ops': [], 'nx': None}
+    # isolated vertices beyond the last edge; paths and stars on 4..6 labels of every family, inserted as listed
+    for fi, fam in enumerate(SWEEP_LABELS):
+        for shape in range(6):
+            c += 1
+            k = len(fam)
+            if shape == 0:
+                edges = [[0, 1]]                                    # two vertices joined, two isolated
+            elif shape == 1:
+                edges = [[i, i + 1] for i in range(k - 1)]          # a path in order of insertion
+            elif shape == 2:
+                edges = [[i + 1, i] for i in range(k - 1)] + [[0, k - 1]]
+            elif shape == 3:
+                edges = [[0, i] for i in range(1, k)]               # a star
+            elif shape == 4:
+                edges = [[i, j] for i in range(k) for j in range(k) if i != j]     # complete, both orientations
+            else:
+                edges = []
+            nodes = [{'l': x} for x in fam]
+            if clsname == 'BipartiteGraph':
+                sp = COLOUR_SPELLINGS[c % len(COLOUR_SPELLINGS)]
+                for i, nd in enumerate(nodes):
+                    nd['b'] = sp[(i + shape // 3) % 2]
+            F = {'nx': NX_CLASSES[c % 4], 'via': VIAS[(c // 4) % 2], 'nodes': nodes, 'edges': edges}
+            yield _with_tail(clsname, F, c, scripts)
+    if clsname == 'BipartiteGraph':
+        # one node without a usable 'bipartite' attribute
+        for k in (1, 2, 3):
+            for pos in range(k):
+                for bad in BAD_COLOURS:
+                    c += 1
+                    fam = SWEEP_LABELS[c % len(SWEEP_LABELS)]
+                    nodes = [{'l': fam[i], 'b': COLOUR_SPELLINGS[c % 3][i % 2]} for i in range(k)]
+                    if bad == 'missing':
+                        del nodes[pos]['b']
+                    else:
+                        nodes[pos]['b'] = bad
+                    edges = [[i, i + 1] for i in range(k - 1)] if c % 2 else [[i + 1, i] for i in range(k - 1)]
+                    F = {'nx': NX_CLASSES[c % 4], 'via': VIAS[(c // 4) % 2], 'nodes': nodes, 'edges': edges}
+                    yield _with_tail(clsname, F, c, scripts)
+
+
+# foreign objects, generated
+FAMILIES = ('int', 'digits', 'str', 'tuple', 'float', 'bool-int', 'int-float', 'mixed', 'mixed-str', '1..n')
+_F_VALS = st.lists(st.integers(-9, 30), unique=True, min_size=6, max_size=6)
+_F_EDGES = st.lists(st.tuples(_B_BIG, _B_BIG), max_size=14)
+_F_COLS = st.lists(st.integers(0, 11), min_size=6, max_size=6)
+
+
+def _family_label(fam, v, p):
+    if fam == 'int':
+        return v
+    if fam == 'digits':
+        return str(v + 9)
+    if fam == 'str':
+        return 'n{}'.format(v)
+    if fam == 'tuple':
+        return [v // 4, v % 4]
+    if fam == 'float':
+        return v / 2
+    if fam == 'bool-int':
+        return False if v == 0 else True if v == 1 else v
+    if fam == 'int-float':
+        return v if p % 2 else v + 0.5
+    if fam == 'mixed':
+        return v if p % 2 == 0 else 'n{}'.format(v)
+    if fam == 'mixed-str':
+        return str(v + 9) if p % 2 else 'x{}'.format(v)
+    return p + 1
+
+
+@st.composite
+def _foreign_history(draw, clsname, max_steps):
+    k = draw(_N_START)
+    vals = draw(_F_VALS)[:k]
+    a = draw(_B_BIG)
+    fam = FAMILIES[a % len(FAMILIES)]
+    flags = a // len(FAMILIES)
+    with_loops = flags % 3 == 0
+    strict = (flags // 3) % 3 != 0              # bipartite: only edges between the sides
+    bad_colour = (flags // 9) % 8 == 0
+    stray_attribute = (flags // 72) % 4 == 0    # simple / directed: a 'bipartite' attribute that means nothing
+    nodes = [{'l': _family_label(fam, v, p)} for p, v in enumerate(vals)]
+    cols = draw(_F_COLS)
+    if clsname == 'BipartiteGraph' or stray_attribute:
+        for p, nd in enumerate(nodes):
+            nd['b'] = COLOUR_SPELLINGS[(cols[p] // 2) % len(COLOUR_SPELLINGS)][cols[p] % 2]
+        if bad_colour and k:
+            bad = BAD_COLOURS[flags % len(BAD_COLOURS)]
+            if bad == 'missing':
+                del nodes[cols[0] % k]['b']
+            else:
+                nodes[cols[0] % k]['b'] = bad
+    edges = [[i % k, j % k] for (i, j) in draw(_F_EDGES)] if k else []
+    if not with_loops:
+        edges = [e for e in edges if e[0] != e[1]]
+    if clsname == 'BipartiteGraph' and strict:
+        # an edge inside a side is moved to the next node of the other side, if there is one
+        for e in edges:
+            for d in range(k):
+                if cols[e[0]] % 2 != cols[(e[1] + d) % k] % 2:
+                    e[1] = (e[1] + d) % k
+                    break
+        edges = [e for e in edges if cols[e[0]] % 2 != cols[e[1]] % 2]
+    b = draw(_B_BIG)
+    F = {'nx': NX_CLASSES[b % 4], 'via': VIAS[(b // 4) % 2], 'nodes': nodes, 'edges': edges}
+    M = _foreign_final(clsname, F)
+    case = {'cls': clsname, 'foreign': F, 'ops': _draw_ops(draw, clsname, M, max_steps),
+            'nx': {'mul': 1 + (b // 8) % 3, 'add': (b // 24) % 7 - 3, 'rev': bool((b // 168) % 2)}}
+    return case
+
+
 COMMON_RULE = ("model = vertex count + Python set of edges; after every step every public view is compared with "
                "the model (counts, edges() sorted/duplicate-free, has_edge and `in edges()` for every ordered pair "
                "from -1 to n+2, neighbour lists sorted, degrees, to_networkx); a call that must be refused has to "
@@ -605,6 +1225,44 @@ VIEW_RULE = ("HELD VIEWS: the histories also contain `hold` (keep the object ret
              "and `in` for every ordered pair from -1 to n+2 must equal the model at that moment and the answers of a view "
              "obtained at that moment. Held ranges and neighbour lists/generators (snapshots in the tree) must show the "
              "graph at the time of the call or as it is now. ")
+FOREIGN_RULE = ("FOREIGN OBJECTS: a quarter of the generated histories and an enumerated sweep start from "
+                "cls.from_networkx(X) / cls.normalize(X) instead of cls(n), and any history may replace its object by the "
+                "conversion of a networkx graph built from the model (operation reconvert: labels mul*i+add, insertion "
+                "reversed or not, Graph/DiGraph or Multi(Di)Graph with every edge twice). X: networkx Graph, DiGraph, "
+                "MultiGraph or MultiDiGraph; generated: 0..6 nodes inserted in any order with labels that are integers "
+                "(negative, 0, gaps), strings of digits, other strings, tuples, floats, bool+int, int+float, int+str (not "
+                "sortable), 1..n, up to 14 edges with parallel, antiparallel pairs and (a third of the cases) self-loops, "
+                "'bipartite' attributes spelled 0/1, False/True, '0'/'1' or mixed, one case in 8 with an unusable one (2, "
+                "-1, 0.5, 'left', '', '2', None, [0], missing), bipartite edges given in either orientation, a third of "
+                "the cases with edges inside a side; enumerated: EVERY edge list over the ordered pairs (loops included) "
+                "of k<=3 nodes (as it is / reversed / every edge twice / one edge twice and 11 label families in "
+                "rotation), thorough: for each of the 4 networkx classes x 2 class methods (x every 2-colouring for "
+                "BipartiteGraph) and k=4 with one combination per edge list, quick: one combination per edge list picked "
+                "by a hash of VERIF_SEED; plus paths, cycles, stars, complete and edgeless graphs on the 4 labels of each "
+                "family, every unusable colour at every position (k<=3), and 8 objects that are not networkx graphs "
+                "(None, edge list, dict, str, int, the class networkx.Graph, objects of the two other cnfgen classes). "
+                "Oracle, computed by the harness from the node list and the edge list alone: argument classes the target "
+                "does not take (undirected graphs for DirectedGraph, non-graphs) -> ValueError or TypeError; a self-loop "
+                "(Graph, BipartiteGraph), an edge inside a side, a node without usable colour -> ValueError; (DirectedGraph: "
+                "loop kept or ValueError); nothing comes back from a refusal and the argument is never modified; the case "
+                "then mends the argument (directed class / colours replaced / offending edges dropped) and converts "
+                "again; otherwise the result is an object of the class whose EVERY view equals the model: k vertices, "
+                "labels numbered in sorted order (all-digit strings numerically, unsortable labels: insertion order or "
+                "any bijection; bipartite: each side 1..L / 1..R by insertion order or sorted), edge set = the "
+                "pairs mapped, merged as duplicate insertions are (DiGraph (a,b)+(b,a): one edge of a Graph, two of a "
+                "DirectedGraph). The history then continues on the converted object (enumerated: a held edge view, two "
+                "update scripts, an edge of the conversion inserted again in the other orientation and removed, one case "
+                "in 4 a reconvert in the middle) with all views compared after every step. ")
+_CONV_LABELS = ['converted', 'via:from_networkx', 'via:normalize', 'nx:Graph', 'nx:DiGraph', 'nx:MultiGraph',
+                'nx:MultiDiGraph', 'nx:other', 'foreign-not-a-networkx-graph-refused', 'conversion-refused-with-ValueError',
+                'conversion-refused-with-TypeError', 'converted-after-repair', 'converted-parallel-edges',
+                'converted-antiparallel-edges', 'converted-isolated-vertex', 'converted-last-vertex-isolated',
+                'converted-null-graph', 'converted-single-vertex', 'labels:int', 'labels:int<=0', 'labels:int-with-gaps',
+                'labels:digit-strings', 'labels:strings', 'labels:tuple', 'labels:float', 'labels:mixed-types',
+                'labels-not-inserted-in-their-order', 'converted-then-inserted', 'converted-then-duplicate',
+                'converted-then-duplicate-of-a-converted-edge', 'converted-then-refused', 'reconverted',
+                'reconverted-from_networkx', 'reconverted-normalize']
+_NUMBERING_LABELS = ['numbering:sorted', 'numbering:digit-strings', 'numbering:unsortable']
 _VIEW_LABELS = ['view-held', 'view-consulted', 'held:edges', 'held:nbrs', 'held-eager', 'held-lazy',
                 'held-edge-view-consulted', 'consult-after-insertion', 'consult-after-batch', 'consult-after-refused-call',
                 'looked-at-again-after-a-change', 'view-held-at-0-vertices']
@@ -616,7 +1274,7 @@ SUBCHECKS = [
                   "add_edges_from (half of them with a forbidden pair in the middle, list or iterator) / "
                   "update_vertex_number(-1..n+3, capped at 12), arguments legal, already present (either "
                   "orientation) or anything in -1..n+2; plus every history of length <=2 (thorough <=3) over 39 "
-                  "operations from n=0,1,2. " + COMMON_RULE + VIEW_RULE +
+                  "operations from n=0,1,2. " + COMMON_RULE + VIEW_RULE + FOREIGN_RULE +
                   "Non-trivial: >=5 successful insertions and a removal after a growth.",
              required_labels=['refused', 'refused-nothing-changed', 'duplicate', 'duplicate-other-orientation',
                               'removal', 'removal-other-orientation', 'remove-absent', 'growth',
@@ -625,29 +1283,36 @@ SUBCHECKS = [
                               'batch-refused', 'batch-bad-in-the-middle', 'initial-size-0',
                               'networkx-relabelled', '5-insertions', 'bad-initial-size'] + _VIEW_LABELS +
              ['held:vertices', 'consult-after-growth', 'consult-after-removal', 'consult-sees-edge-among-new-vertices',
-              'consult-sees-edges-of-a-graph-held-at-0-vertices', 'consult-same-count-other-edges']),
+              'consult-sees-edges-of-a-graph-held-at-0-vertices', 'consult-same-count-other-edges'] + _CONV_LABELS +
+             _NUMBERING_LABELS + ['foreign-selfloop-refused', 'converted-then-growth', 'converted-then-removal',
+                                  'converted-then-removal-of-a-converted-edge']),
     SubCheck('directed', run_case, strategy=_strategy('DirectedGraph'), enumerate_cases=_enumerate('DirectedGraph'),
              quick=4000, thorough=16000,
              rule="DirectedGraph(n), n=0..6, histories of 0..50 (thorough 0..200) calls of add_edge / "
                   "add_edges_from with forward edges, back edges, loops, duplicates and out-of-range arguments; "
                   "plus every history of length <=2 (thorough <=3) over 28 operations from n=0..3. " + COMMON_RULE + VIEW_RULE +
+                  FOREIGN_RULE +
                   "is_dag() must be True exactly when every inserted edge has src < dest (also after refused back "
                   "edges). Non-trivial: >=5 successful insertions.",
              required_labels=['refused', 'refused-nothing-changed', 'duplicate', 'back-edge', 'loop',
                               'dag-at-the-end', 'not-dag-at-the-end', 'batch-ok', 'batch-refused',
                               'batch-bad-in-the-middle', 'initial-size-0', 'networkx-relabelled',
                               '5-insertions', 'refused-zero', 'bad-initial-size'] + _VIEW_LABELS +
-             ['held:edges_succ', 'held:vertices']),
+             ['held:edges_succ', 'held:vertices'] + _CONV_LABELS + _NUMBERING_LABELS +
+             ['foreign-class-refused', 'converted-loop']),
     SubCheck('bipartite', run_case, strategy=_strategy('BipartiteGraph'), enumerate_cases=_enumerate('BipartiteGraph'),
              quick=4000, thorough=16000,
              rule="BipartiteGraph(L,R), L,R=0..5, histories of 0..50 (thorough 0..200) calls of add_edge / "
                   "add_edges_from, left argument in -1..L+2 and right argument in -1..R+2; plus every history of "
-                  "length <=2 (thorough <=3) over 18 operations from L,R in 0..2. " + COMMON_RULE + VIEW_RULE +
+                  "length <=2 (thorough <=3) over 18 operations from L,R in 0..2. " + COMMON_RULE + VIEW_RULE + FOREIGN_RULE +
                   "Non-trivial: >=5 successful insertions.",
              required_labels=['refused', 'refused-nothing-changed', 'duplicate', 'swapped-sides-refused',
                               'batch-ok', 'batch-refused', 'batch-bad-in-the-middle', 'initial-size-0',
                               'one-empty-side', 'networkx-relabelled', '5-insertions', 'refused-zero',
-                              'bad-initial-size'] + _VIEW_LABELS + ['held:parts']),
+                              'bad-initial-size'] + _VIEW_LABELS + ['held:parts'] + _CONV_LABELS +
+             ['foreign-selfloop-refused', 'foreign-edge-inside-a-side-refused', 'foreign-bad-colour-refused',
+              'foreign-missing-colour-refused', 'colours:int', 'colours:bool', 'colours:str',
+              'converted-edge-given-right-left', 'converted-one-empty-side']),
 ]
 
 
@@ -880,7 +1545,6 @@ def enum_batches(tier):
                                           dups=k % 2, pre=k % 3)
 
 
-_B_BIG = st.integers(0, 10 ** 6)
 _B_SIZE = st.one_of(st.integers(1, 100), st.sampled_from([31, 32, 33, 63, 64, 65, 99, 100]))
 _B_CLS = st.sampled_from(['Graph', 'DirectedGraph', 'BipartiteGraph'])
 
